@@ -14,5 +14,8 @@ def run(ctx):
     )
     V.v5_equations(ctx)
     V.v6_derived_constructors(ctx)
+    from ..engines import sizecheck as SC
+    SC.v9_equation_forms(ctx, 3 if ctx.tier == "quick" else 5)
+    ctx.floor("V9", 10)
     ctx.floor("V5", 13)
     ctx.floor("V6", 8)
